@@ -80,6 +80,18 @@ var handK = []string{
 	`print 1 - -1`,
 	`print "" or nil or 0 or 0.0 or false or "end"`,
 	`print 1 and "a" and 2.5 and true and "last"`,
+	// child block read through its key (value semantics unspecified, but must not crash)
+	`def b { def c {}; print c == c }`,
+	`def b { def c {}; print c == 1; print c != nil }`,
+	`def b { def c {}; print c; x = c }`,
+	`def b { def c {}; print not c; print c and 1; print c or 1 }`,
+	`def b { def c {}; print c + 1 }`,
+	`def b { def c {}; print -c }`,
+	`def b { def c {}; print c < c }`,
+	`def b { def c {}; print "s" + c }`,
+	`def b { def c {}; print "s" * c }`,
+	`def b { def c {}; c = 2; print c }`,
+	`def b { TYPE = 1; NAME = 2; print TYPE; print NAME }`,
 	// runtime errors
 	`print 1 + "a"`,
 	`print 1/0`,
